@@ -29,8 +29,19 @@ def gen_cases(rng, n):
         b = rng.choice([-2.0, 0.0, 1.5, 3.0, 0.3])
         c = rng.choice([-1.0, 0.0, 2.0, 0.7])
         x0 = rng.choice([-3.0, -1.0, 0.0, 0.25, 2.0, 4.0, 1.5])
-        bk = rng.choice(["none", "wide", "tight", "exclude-start", "exclude-min"])
-        if bk == "none":
+        bk = rng.choice(["none", "wide", "tight", "exclude-start", "exclude-min", "min-near-bound"])
+        lr = rng.choice([0.1, 0.01, 0.05, 0.3])
+        max_iter = rng.choice([5, 40, 200, 1000])
+        mom = rng.choice([0.9, 0.5, 0.0])
+        if bk == "min-near-bound":
+            # an interior minimum close to one bound, the start far on the other side, a small step with momentum:
+            # the iterate overshoots the minimum and momentum carries it on towards (and past) the near bound
+            kind = 0
+            delta = rng.choice([0.25, 0.5, 1.0])
+            x0 = b + rng.choice([6.0, 7.5, -6.0, -7.5])
+            bounds = [b - delta, x0 + 1.0] if x0 > b else [x0 - 1.0, b + delta]
+            lr, mom, max_iter = rng.choice([0.01, 0.02]), 0.9, rng.choice([200, 1000])
+        elif bk == "none":
             bounds = None
         elif bk == "wide":
             bounds = [min(x0, b) - 5.0, max(x0, b) + 5.0]
@@ -40,10 +51,7 @@ def gen_cases(rng, n):
             bounds = [x0 + 0.5, x0 + 4.0] if rng.random() < 0.5 else [x0 - 4.0, x0 - 0.5]
         else:
             bounds = [b + 0.5, max(x0, b + 0.5) + 3.0] if x0 >= b + 0.5 else [min(x0, b - 3.0), b - 0.5]
-        lr = rng.choice([0.1, 0.01, 0.05, 0.3])
-        max_iter = rng.choice([5, 40, 200, 1000])
         tol = rng.choice([1e-4, 1e-6, 1e-2])
-        mom = rng.choice([0.9, 0.5, 0.0])
         cases.append({"kind": kind, "abc": [fhex(a), fhex(b), fhex(c)], "x0": fhex(x0),
                       "bounds": [fhex(v) for v in bounds] if bounds else None, "lr": fhex(lr), "max_iter": max_iter,
                       "tol": fhex(tol), "mom": fhex(mom), "bounds_kind": bk})
